@@ -21,6 +21,9 @@ Next ==
   \/ Resume
   \/ \E c \in ExitCodes : ChildExit(1, c)
   \/ \E s \in Signals, core \in {0, 1} : ChildSignalled(1, s, core)
+  \* the child gives up the exit handle and is then stopped for a while, before or while it is waited for
+  \/ (ncalls = 2 /\ ChildCloseX(1))
+  \/ (~ch[1].xo /\ ~(\E k \in 1..Len(hist) : hist[k].e = "env" /\ hist[k].k = "cstop") /\ ChildStop(1))
 
 Spec == Init /\ [][Next]_vars
 Export == ExportRet
